@@ -41,7 +41,7 @@ def gen_cb(rng: Any, ids: list[int], depth: int, allow_service: bool, p_raise: f
     routes = ["direct", "direct", "shortcut", "resource", "ctxteardown"] + (["service"] if allow_service and depth == 0 else [])
     route = rng.choice(routes)
     kind = rng.choice(["sync", "async", "async", "sync_awaitable"])
-    form = rng.choice(["function", "function", "function", "partial", "object", "unhashable_object", "misleading_signature"])  # how the callable is given
+    form = rng.choice(["function", "function", "function", "partial", "object", "unhashable_object", "misleading_signature", "equal_object", "equal_object"])  # how the callable is given
     if route == "ctxteardown":
         kind = "async"
     cb: dict[str, Any] = {"id": cid, "route": route, "kind": kind, "pass_exception": False, "steps": [], "raises": None, "children": [], "form": form}
@@ -293,10 +293,14 @@ class Run:
             @functools.wraps(original)
             def probe(*a: Any, **k: Any) -> Any:  # noqa: F811
                 return inner_probe(*a, **k)
-        elif form in ("object", "unhashable_object"):
+        elif form in ("object", "unhashable_object", "equal_object"):
             inner = probe
-            # "unhashable": a callable object with __eq__ but no __hash__ (what a plain @dataclass with __call__ is)
+            # "unhashable": a callable object with __eq__ but no __hash__ (what a plain @dataclass with __call__ is);
+            # "equal": callable objects with value semantics - every one of them compares (and hashes) equal to every other one,
+            # as two `Closer(pool)` instances for the same pool would; each registration is still a callback of its own
             extra: dict[str, Any] = {"__eq__": lambda s, o: s is o, "__hash__": None} if form == "unhashable_object" else {}
+            if form == "equal_object":
+                extra = {"is_equal_probe": True, "__eq__": lambda s, o: getattr(o, "is_equal_probe", False), "__hash__": lambda s: 3}
             if cb["kind"] == "async":
 
                 async def acall(self: Any, *a: Any) -> Any:
@@ -760,7 +764,9 @@ def features(run: Run) -> dict[str, int]:
             if byid[cid]["form"] == "misleading_signature":
                 inc("callback_form_misleading_signature")
             else:
-                inc(f"callback_form_{byid[cid]['form'].replace('unhashable_', '')}")
+                inc(f"callback_form_{byid[cid]['form'].replace('unhashable_', '').replace('equal_', '')}")
+                if byid[cid]["form"] == "equal_object":
+                    inc("callback_form_equal_object")
             if byid[cid]["form"] == "unhashable_object":
                 inc("callback_form_unhashable_object")
     if any(byid[cid]["route"] == "resource" and byid[cid].get("ntypes", 0) > 1 for cid in order):
